@@ -137,7 +137,17 @@ impl RateLoader {
     ) -> Result<Option<DailyRate>, SError> {
         let year = trade_date.year() as u32;
 
-        if !self.year_rates.contains_key(&year) {
+        // Rates which were served from the cache for an earlier date may not reach
+        // `trade_date`. Go through the loader again in that case, so that it can
+        // invalidate the cache (it downloads at most once per year and run).
+        let need_load = match self.year_rates.get(&year) {
+            None => true,
+            Some(rates) => {
+                !rates.contains_key(&trade_date)
+                    && !self.fresh_loaded_years.contains(&year)
+            }
+        };
+        if need_load {
             debug!("RateLoader::get_exact_usd_cad_rate {} not yet loaded", year);
             let rates = self.fetch_usd_cad_rates_for_date_year(&trade_date).await?;
             self.year_rates.insert(year, rates);
